@@ -255,7 +255,7 @@ func goBodies(c *Ctx, fn *ssa.Function) []*ssa.Function {
 // by its name, or — after a renaming — as the one method of the type that stores a parameter into a map / deletes
 // from a map.
 func (c *Ctx) pathTableFn(kind string) *ssa.Function {
-	name := map[string]string{"register": "registerPath", "unregister": "unregisterPath"}[kind]
+	name := map[string]string{"register": "registerPath", "unregister": "unregisterPath", "lookup": "getPathHandler"}[kind]
 	if m := c.Method("", "muxerServer", name); m != nil {
 		return m
 	}
@@ -273,6 +273,11 @@ func (c *Ctx) pathTableFn(kind string) *ssa.Function {
 				}
 			case *ssa.Call:
 				if bi, ok := x.Call.Value.(*ssa.Builtin); ok && bi.Name() == "delete" && kind == "unregister" {
+					hit = true
+				}
+			case *ssa.Lookup:
+				// the getter: a map lookup whose result is returned (the request entry point returns nothing)
+				if kind == "lookup" && fn.Signature.Results().Len() == 1 {
 					hit = true
 				}
 			}
